@@ -460,7 +460,8 @@ class ConcurrentExecutor(ABC, Generic[CallableType, ResultType]):
             config=ChildConfig(
                 serdes=self.item_serdes or self.serdes,
                 sub_type=self.sub_type_iteration,
-                summary_generator=self.summary_generator,
+                # no summary generator here: self.summary_generator summarises the BatchResult of
+                # the whole map/parallel, not the result of one branch
             ),
         )
         child_context.state.track_replay(operation_id=operation_id)
